@@ -22,7 +22,8 @@ META = {
         'template is one def with one return expression; (D4) no open/import/os/subprocess/socket/eval/compile call '
         'in the filter modules, exec only in the wrapper, Grid.filter stores nothing through self; (D5) the value constructors a filter literal reaches (datatypes __new__/__init__, pintutil.to_pint/to_haystack) call nothing on program-wide objects (unit registry, module tables).  Also (D3): the filter text is handed unchanged from Grid.filter to the grammar (shared with C11.D8), so invalid tokens reach the grammar and are refused.  Not decided: '
         'absence of effects as an observation of executions.'
-        ' Also (D4): calls into modules that hold interpreter-wide settings (warnings, locale, signal, gc, ...) on the filter path.  (D2) every return of an if/return __repr__ is analysed.'),
+        ' Also (D4): calls into modules that hold interpreter-wide settings (warnings, locale, signal, gc, ...) on the filter path.  (D2) every return of an if/return __repr__ is analysed.'
+        ' Also (D3): generated fragments are never a %-format template.  (D5) no codec / module is looked up by a name taken from a literal.  pyparsing_common elements are modelled by their regular expressions.'),
     'rule_text': 'obligations = fragments reaching exec (per append/extend site), literal classes x repr conversions, '
                  'shape facts, ambient-effect call scan',
     'trusted_base': ['repr() of str/float/int/bool/None/bytes/list/dict/date/time/datetime re-reads as a literal of '
@@ -54,9 +55,13 @@ def run(ctx):
     # invalid tokens must reach the grammar to be refused: the text is not rewritten on the way (shared with C11.D8)
     from . import c11
     c11._text_chain(ctx, m, rule='C12.D3')
+    format_of_fragments(ctx, m, 'C12.D3')
     c11.filter_bypass(ctx, m, 'C12.D3')
 
 
+LOADS_BY_NAME = ('codecs.lookup', 'codecs.getencoder', 'codecs.getdecoder', 'codecs.getreader', 'codecs.getwriter',
+                 'codecs.encode', 'codecs.decode', 'codecs.getincrementalencoder', 'codecs.getincrementaldecoder',
+                 'importlib.import_module', 'pkgutil.get_data', 'pkgutil.find_loader', 'locale.setlocale')
 PURE_MODULES = ('base64', 'binascii', 'six', 're', 'datetime', 'math', 'numbers', 'copy')
 STATE_CHANGERS = ('define', 'register', 'load_definitions', 'enable_contexts', 'setdefault', 'update', 'add', 'append', 'extend',
                   'insert', 'pop', 'remove', 'clear', 'discard', 'popitem', 'default_format')
@@ -82,6 +87,7 @@ def _constructors(ctx, m):
             local = {a.arg for a in fn.args.args} | {x.id for x in ast.walk(fn) if isinstance(x, ast.Name) and isinstance(x.ctx, ast.Store)}
             bad = None
             unknown = None
+            loader = None
             for x in walk_no_nested(fn):
                 if isinstance(x, (ast.Global, ast.Nonlocal)):
                     written = [y for y in walk_no_nested(fn) if isinstance(y, ast.Name) and y.id in x.names
@@ -106,8 +112,20 @@ def _constructors(ctx, m):
                         continue
                     if x.func.attr in STATE_CHANGERS:
                         bad = (x, 'calls %s on the program-wide object %s' % (x.func.attr, b.id))
+                    elif norm(x.func) in LOADS_BY_NAME and x.args and not isinstance(x.args[0], ast.Constant):
+                        loader = x
                     else:
                         unknown = (x, b.id)
+            if loader is not None and not bad:
+                ctx.violation('C12.D5', '%s::%s' % (F, q), norm(loader),
+                              'grid.filter(\'blob == rot_13("x")\') (or bz2("..") / idna("..") / any name): the type name of an '
+                              'extended-string literal comes from the filter text and is handed to `%s`, which IMPORTS '
+                              'encodings.<that name> -- module files are opened and sys.modules grows although only a filter was '
+                              'evaluated' % norm(loader.func),
+                              'a value constructor reachable from filter literals looks a codec up by a name taken from the '
+                              'literal (`%s`): the registry search imports modules' % norm(loader)[:60], file=F,
+                              line=loader.lineno, engine='E7')
+                continue
             if bad:
                 ctx.violation('C12.D5', '%s::%s' % (F, q), norm(bad[0]),
                               'grid.filter(\'power ==5zorkmid\') (a number literal with a made-up unit, Pint mode): building the '
@@ -460,6 +478,47 @@ def _closed_repr(ctx, c, rp, owner, k, ret, FD):
         else:
             ctx.ob('C12.D2', '%s.__repr__ `%s` is closed: constant head, every field under %%r' % (owner, fmt), True,
                    '%s:%d' % (FD, rp.lineno))
+
+
+def format_of_fragments(ctx, m, rule='C12.D3'):
+    """The generated fragments hold repr() of the filter's literals.  They may be joined and concatenated, but never be
+    (part of) the LEFT operand of `%`: there a percent sign inside a string literal of the filter is a format directive."""
+    try:
+        cf = m.func(MOD, '_filter_function')
+    except AnalysisError as e:
+        ctx.error(rule, str(e))
+        return
+    frag = set()
+    for n in walk_no_nested(cf):
+        if isinstance(n, ast.Call) and norm(n.func) == '_generate_filter_in_python':
+            if len(n.args) > 1 and isinstance(n.args[1], ast.Name):
+                frag.add(n.args[1].id)
+            p_ = getattr(n, '_parent', None)
+            if isinstance(p_, ast.Assign) and len(p_.targets) == 1 and isinstance(p_.targets[0], ast.Name):
+                frag.add(p_.targets[0].id)
+    # names assigned from an expression that contains fragments carry them too
+    changed = True
+    while changed:
+        changed = False
+        for n in walk_no_nested(cf):
+            if isinstance(n, ast.Assign) and len(n.targets) == 1 and isinstance(n.targets[0], ast.Name) and n.targets[0].id not in frag \
+                    and any(isinstance(x, ast.Name) and x.id in frag for x in ast.walk(n.value)):
+                # ... unless this very assignment is a `%` whose left side carries them (reported below)
+                frag.add(n.targets[0].id)
+                changed = True
+    hits = [n for n in walk_no_nested(cf) if isinstance(n, ast.BinOp) and isinstance(n.op, ast.Mod)
+            and any(isinstance(x, ast.Name) and x.id in frag for x in ast.walk(n.left))]
+    if hits:
+        n = hits[0]
+        ctx.violation(rule, '%s::_filter_function' % F, norm(n),
+                      'filter `dis == "100%"` (or `load == "%s"`, or a URI with %20): the generated source, which contains repr() '
+                      'of that literal, is the left operand of `%` -- the percent sign is read as a format directive: TypeError / '
+                      'ValueError out of Grid.filter, and `dis == "5%%"` is silently compiled as "5%"',
+                      'generated code fragments are used as a %%-format template (`%s`)' % norm(n.left)[:50], file=F,
+                      line=n.lineno, engine='E10')
+    else:
+        ctx.ob(rule, 'the generated fragments are only joined / concatenated, never the template of a %-format', True,
+               '%s:%d' % (F, cf.lineno))
 
 
 # ------------------------------------------------------------------ D3 / D4
